@@ -105,8 +105,13 @@ static void run_soup(const Soup &s, bool emit) {
     out.begin("Cleanup").i("case", n_cases).b("ok", st.ok()).b("deg", mask & 1).b("dup", mask & 2).b("unused", mask & 4)
         .raw("in", project(*m0, true, acc)).raw("out", project(c, true, acc)).end();
   }
-  for (int mode = 0; mode < 2; ++mode) {
-    MeshStripifier st;
+  // mode 2 / 3: the same two calls on ONE stripifier object that has stripified every earlier mesh (in both modes): the strips of a mesh describe
+  // that mesh, whatever the object produced before
+  static MeshStripifier reused_st;
+  for (int mode4 = 0; mode4 < 4; ++mode4) {
+    const int mode = mode4 % 2;
+    MeshStripifier fresh_st;
+    MeshStripifier &st = mode4 >= 2 ? reused_st : fresh_st;
     std::vector<uint32_t> idx;
     const uint32_t restart = 1000000u;
     const bool ok = mode == 0 ? st.GenerateTriangleStripsWithPrimitiveRestart(*m0, restart, std::back_inserter(idx))
